@@ -15,7 +15,7 @@ EXPLANATION = (
     "readers is peek-1 / scan-in-loop / delegation (shared with C12)."
     " (R6) FASTQ read_record resets the whole reused record through a field-complete Record::clear() before the appending line reads; (R7) append-buffer discipline of all FASTA/FASTQ readers and indexers, with the three public append-to-caller-buffer APIs tabled."
     " (R8) an LF scanner over a fill_buf window that strips a CR tests for it independently of whether the LF is in the same window."
-    " (R9) ragged files are rejected: every cycle of the indexer's line loop through consume_sequence_line passes an Eq/Ne comparison between this line's geometry and the first line's.")
+    " (R9) ragged files are rejected: every cycle of the indexer's line loop through consume_sequence_line passes an Eq/Ne comparison between this line's geometry and the first line's. (R10) no ordered lookup (binary search) over the file-ordered fai records.")
 ASSUMPTIONS = ["the offset arithmetic start / line_bases * line_width + start % line_bases is pinned by unit tests (value-level)"]
 NOT_DECIDED = ["offset arithmetic and CRLF accounting values (a `%` operand mutant survives the suite and this check)",
                "FASTA/FASTQ writer/reader record equality at every line width"]
